@@ -1,7 +1,7 @@
 (* Walk-level lemmas about the analyzer model: what the whole walk does, for every module tree. *)
 From Coq Require Import List Ascii String Bool Arith ZArith Lia.
 From SV Require Import Lib.Str Gen.Tables Model.Types Model.Naming Model.Discover Model.Api Model.FrontSmall Model.View Model.Front
-     Proofs.FrontSmallProofs.
+     Proofs.FrontSmallProofs Proofs.DiscoverProofs.
 Import ListNotations.
 
 (* induction over class members that reaches through the member lists of nested classes *)
@@ -157,4 +157,347 @@ Proof.
   match goal with |- output_of (bind ?X _) = output_of (bind ?Y _) => destruct X as [e1|], Y as [e2|]; cbn in G; try discriminate; cbn [bind output_of] end.
   - inversion G as [G']. rewrite G'. reflexivity.
   - congruence.
+Qed.
+
+(* ======================================================================================================== *)
+(* stack discipline: every node leaves the frames below it in place (their headers unchanged), and the module     *)
+(* dictionary, the re-export map and the current-module fields untouched                                         *)
+(* ======================================================================================================== *)
+Definition hdr_eq (a b : frame) : Prop :=
+  match a, b with
+  | FModule m, FModule m' => m_id m = m_id m' /\ m_name m = m_name m' /\ m_doc m = m_doc m' /\ m_qimports m = m_qimports m' /\ m_wimports m = m_wimports m'
+  | FClass c, FClass c' => c_id c = c_id c' /\ c_name c = c_name c' /\ c_public c = c_public c'
+  | FFunc f, FFunc f' => f = f'
+  | FEnum e, FEnum e' => e_id e = e_id e' /\ e_name e = e_name e'
+  | FAssign i, FAssign i' => i = i'
+  | _, _ => False
+  end.
+
+Lemma hdr_refl a : hdr_eq a a.
+Proof. destruct a; cbn; auto. Qed.
+Lemma hdr_trans a b c : hdr_eq a b -> hdr_eq b c -> hdr_eq a c.
+Proof.
+  destruct a, b; cbn; try contradiction; destruct c; cbn; try contradiction; intuition congruence.
+Qed.
+Lemma hdrs_refl s : Forall2 hdr_eq s s.
+Proof. induction s; constructor; auto using hdr_refl. Qed.
+Lemma hdrs_trans a : forall b c, Forall2 hdr_eq a b -> Forall2 hdr_eq b c -> Forall2 hdr_eq a c.
+Proof.
+  induction a as [|x a IH]; intros b c H1 H2; inversion H1; subst; inversion H2; subst; constructor; eauto using hdr_trans.
+Qed.
+
+(* the fields a node may not touch *)
+Definition keeps (st st' : vstate) : Prop :=
+  vs_modules st' = vs_modules st /\ vs_rmap st' = vs_rmap st /\ vs_modfull st' = vs_modfull st /\ vs_modname st' = vs_modname st.
+Lemma keeps_refl st : keeps st st.
+Proof. repeat split. Qed.
+Lemma keeps_trans a b c : keeps a b -> keeps b c -> keeps a c.
+Proof. unfold keeps. intuition congruence. Qed.
+
+(* a step that leaves the stack in place *)
+Definition pres (st st' : vstate) : Prop := Forall2 hdr_eq (vs_stack st) (vs_stack st') /\ keeps st st'.
+Lemma pres_refl st : pres st st.
+Proof. split; [apply hdrs_refl|apply keeps_refl]. Qed.
+Lemma pres_trans a b c : pres a b -> pres b c -> pres a c.
+Proof. intros [H1 K1] [H2 K2]. split; [eapply hdrs_trans; eauto|eapply keeps_trans; eauto]. Qed.
+
+(* entering pushes one frame *)
+Definition pushed (st st' : vstate) : Prop := (exists fr, vs_stack st' = fr :: vs_stack st) /\ keeps st st'.
+(* leaving pops one frame *)
+Definition popped (st st' : vstate) : Prop := (exists fr rest, vs_stack st = fr :: rest /\ Forall2 hdr_eq rest (vs_stack st')) /\ keeps st st'.
+
+Lemma push_then_pop a b c : pushed a b -> pres b c -> forall d, popped c d -> pres a d.
+Proof.
+  intros [[fr E] K1] [H K2] d [[fr' [rest [E' H']]] K3]. split; [|eauto using keeps_trans].
+  rewrite E, E' in H. inversion H; subst. eapply hdrs_trans; eauto.
+Qed.
+
+Ltac inv_ok := repeat match goal with
+  | H : Ok _ = Ok _ |- _ => inversion H; clear H; subst
+  | H : Err _ = Ok _ |- _ => discriminate H
+  | H : bind ?X _ = Ok _ |- _ => let E := fresh "E" in destruct X eqn:E; cbn [bind] in H; [|discriminate H]
+  end.
+
+Ltac split_pairs := repeat match goal with x : (vstate * W)%type |- _ => destruct x end; cbn [fst snd] in *.
+
+Section Stack.
+  Variables (al : aliases) (d : docs) (pref_doc warn : bool).
+
+  Lemma enter_func_pushed st f st' w : enter_func al d pref_doc warn st f = Ok (st', w) -> pushed st st'.
+  Proof.
+    unfold enter_func. intro H. inv_ok.
+    match goal with H : (let '(_, _) := ?X in _) = _ |- _ => destruct X as [rc ramb] end.
+    match goal with H : (let '(_, _) := ?X in _) = _ |- _ => destruct X as [r n] end. inv_ok.
+    split; [eexists; reflexivity|repeat split].
+  Qed.
+
+  Lemma enter_class_pushed st c st' w : enter_class al d st c = Ok (st', w) -> pushed st st'.
+  Proof.
+    unfold enter_class. intro H. inv_ok. destruct (superclasses _ _) as [[sups exc] amb]. inv_ok.
+    split; [eexists; reflexivity|repeat split].
+  Qed.
+
+  Lemma enter_enum_pushed st c st' : enter_enum d st c = Ok st' -> pushed st st'.
+  Proof. unfold enter_enum. intro H. inv_ok. split; [eexists; reflexivity|repeat split]. Qed.
+
+  Lemma enter_assign_pushed st lvs ut st' w : enter_assign al d st lvs ut = Ok (st', w) -> pushed st st'.
+  Proof. unfold enter_assign. intro H. inv_ok. split; [eexists; reflexivity|repeat split]. Qed.
+
+  Lemma leave_func_popped st st' : leave_func st = Ok st' -> popped st st'.
+  Proof.
+    unfold leave_func. destruct (vs_stack st) as [|[m|c|f|e|i] rest] eqn:S; try discriminate.
+    destruct rest as [|parent r']; intro H; inv_ok.
+    - split; [exists (FFunc f), []; split; [exact S|constructor]|repeat split].
+    - split; [|repeat split]. exists (FFunc f), (parent :: r'). split; [exact S|]. cbn [vs_stack].
+      constructor; [|apply hdrs_refl]. destruct parent; cbn [hdr_eq]; auto;
+        match goal with |- context [if ?b then _ else _] => destruct b end; destruct c; cbn; auto.
+  Qed.
+
+  Lemma leave_class_popped st st' : leave_class st = Ok st' -> popped st st'.
+  Proof.
+    unfold leave_class. destruct (vs_stack st) as [|[m|c|f|e|i] rest] eqn:S; try discriminate.
+    destruct rest as [|[m|p|f|e|i] r']; intro H; inv_ok; (split; [|repeat split]);
+      eexists _, _; (split; [exact S|]); cbn [vs_stack with_classes set_stack]; try apply hdrs_refl;
+      (constructor; [cbn; auto|apply hdrs_refl]).
+  Qed.
+
+  Lemma leave_enum_popped st st' : leave_enum st = Ok st' -> popped st st'.
+  Proof.
+    unfold leave_enum. destruct (vs_stack st) as [|[m|c|f|e|i] rest] eqn:S; try discriminate.
+    destruct rest as [|[m|p|f|e'|i] r']; intro H; inv_ok; (split; [|repeat split]);
+      eexists _, _; (split; [exact S|]); cbn [vs_stack set_stack]; try apply hdrs_refl;
+      (constructor; [cbn; auto|apply hdrs_refl]).
+  Qed.
+
+  Definition assign_step (acc : res (list frame * list str * list str)) (it : aitem) : res (list frame * list str * list str) :=
+    do cur <- acc;
+    let '(stack, attrs, insts) := cur in
+    match it, stack with
+    | AIAttr a, FFunc f :: FClass c :: r2 => Ok (FFunc f :: FClass (cls_add_attr c a) :: r2, key_add (a_id a) attrs, insts)
+    | AIAttr a, FFunc f :: _ => Err TypeError
+    | AIAttr a, FClass c :: r2 => Ok (FClass (cls_add_attr c a) :: r2, key_add (a_id a) attrs, insts)
+    | AIAttr a, _ => Ok cur
+    | AIEnumInst id n, FEnum e :: r2 => Ok (FEnum (enum_add_instance e id n) :: r2, attrs, key_add id insts)
+    | AIEnumInst _ _, _ => Ok cur
+    end.
+
+  Lemma assign_fold_err items e : fold_left assign_step items (Err e) = Err e.
+  Proof. induction items; cbn; auto. Qed.
+
+  Lemma assign_fold_pres items : forall init out,
+    fold_left assign_step items (Ok init) = Ok out -> Forall2 hdr_eq (fst (fst init)) (fst (fst out)).
+  Proof.
+    induction items as [|it r IH]; intros [[stack attrs] insts] out H; cbn [fold_left] in H.
+    - inversion H; subst. apply hdrs_refl.
+    - destruct (assign_step (Ok (stack, attrs, insts)) it) as [[[stack' attrs'] insts']|e] eqn:E; [|rewrite assign_fold_err in H; discriminate].
+      apply IH in H. cbn [fst] in *. eapply hdrs_trans; [|exact H]. clear H IH.
+      unfold assign_step in E. cbn [bind] in E.
+      destruct it as [a|id n]; destruct stack as [|[m|c|f|e|i] r2]; inv_ok; try apply hdrs_refl.
+      + constructor; [destruct c; cbn; auto|apply hdrs_refl].
+      + destruct r2 as [|[m|c|f'|e|i] r3]; inv_ok. constructor; [reflexivity|]. constructor; [destruct c; cbn; auto|apply hdrs_refl].
+      + constructor; [cbn; auto|apply hdrs_refl].
+  Qed.
+
+  Lemma leave_assign_popped st st' : leave_assign st = Ok st' -> popped st st'.
+  Proof.
+    unfold leave_assign. destruct (vs_stack st) as [|[m|c|f|e|items] rest] eqn:S; try discriminate.
+    destruct rest as [|parent r']; intro H.
+    - inv_ok. split; [exists (FAssign items), []; split; [exact S|constructor]|repeat split].
+    - assert (G : forall X, (do out <- fold_left assign_step items (Ok (parent :: r', vs_attrs st, vs_enum_insts st));
+                             let '(stack, attrs, insts) := out in X stack attrs insts) = Ok st' ->
+                  exists stack attrs insts, Forall2 hdr_eq (parent :: r') stack /\ X stack attrs insts = Ok st').
+      { intros X HX. destruct (fold_left assign_step items _) as [[[stack attrs] insts]|] eqn:EF; cbn [bind] in HX; [|discriminate].
+        exists stack, attrs, insts. split; [|exact HX]. apply assign_fold_pres in EF. exact EF. }
+      destruct parent as [m|c|f|e|i]; try discriminate;
+        (apply G in H; destruct H as [stack [attrs [insts [HF HX]]]]; inv_ok;
+         split; [exists (FAssign items); eexists; split; [exact S|exact HF]|repeat split]).
+  Qed.
+
+  Lemma pushed_popped_pres a b c : pushed a b -> popped b c -> pres a c.
+  Proof. intros P Q. eapply push_then_pop; [exact P|apply pres_refl|exact Q]. Qed.
+
+  Lemma walk_func_pres st f st' w : walk_func al d pref_doc warn st f = Ok (st', w) -> pres st st'.
+  Proof.
+    unfold walk_func. intro H. inv_ok. split_pairs.
+    match goal with E : enter_func _ _ _ _ _ _ = Ok (?a, _), E1 : leave_func ?b = Ok _, E0 : _ = Ok (?b, _) |- _ =>
+      rename a into s1; rename b into s2; apply enter_func_pushed in E; apply leave_func_popped in E1;
+      eapply push_then_pop; [exact E| |exact E1]; clear E E1; rename E0 into EF end.
+    destruct (str_eqb (fn_name f) (K"__init__")); [|inv_ok; apply pres_refl].
+    match goal with EF : fold_left _ _ (Ok (s1, ?w)) = _ |- _ => generalize dependent w end. revert s1.
+    induction (fn_body f) as [|b r IH]; intros s1 w1 E0; cbn [fold_left] in E0; [inv_ok; apply pres_refl|].
+    cbn [bind] in E0. destruct b; try (apply IH in E0; exact E0).
+    cbn [fst snd] in E0.
+    destruct (enter_assign al d s1 lvs ut) as [[sa wa]|] eqn:EA; cbn [bind fst snd] in E0.
+    - destruct (leave_assign sa) as [sb|] eqn:EB; cbn [bind] in E0.
+      + apply IH in E0. eapply pres_trans; [|exact E0].
+        eapply pushed_popped_pres; [eapply enter_assign_pushed; exact EA|apply leave_assign_popped; exact EB].
+      + exfalso. clear -E0. induction r as [|x r IHr]; cbn in E0; [discriminate|auto].
+    - exfalso. clear -E0. induction r as [|x r IHr]; cbn in E0; [discriminate|auto].
+  Qed.
+
+  Lemma walk_member_pres : forall m st st' w, walk_member al d pref_doc warn st m = Ok (st', w) -> pres st st'.
+  Proof.
+    induction m as [l u|f|f|n p i t|c n|n fu b r defs IH] using cmember_ind'; intros st st' w H; cbn [walk_member] in H.
+    - inv_ok. split_pairs.
+      eapply pushed_popped_pres; [eapply enter_assign_pushed; eassumption|apply leave_assign_popped; eassumption].
+    - eapply walk_func_pres; exact H.
+    - eapply walk_func_pres; exact H.
+    - destruct i; [destruct p; [destruct t|]| |]; try (inv_ok; apply pres_refl); eapply walk_func_pres; exact H.
+    - inv_ok. apply pres_refl.
+    - inv_ok. split_pairs. cbn [cd_defs] in *.
+      match goal with E0 : _ (?a, ?wa) defs = Ok (?b, _) |- _ => rename a into s1; rename b into s2; rename wa into w1; rename E0 into EG end.
+      assert (P1 : pushed st s1).
+      { destruct (is_enum_def _); [inv_ok; eapply enter_enum_pushed; eassumption|eapply enter_class_pushed; eassumption]. }
+      assert (P3 : popped s2 st').
+      { destruct (is_enum_def _); [apply leave_enum_popped|apply leave_class_popped]; eassumption. }
+      eapply push_then_pop; [exact P1| |exact P3]. clear P1 P3.
+      repeat match goal with E : _ = Ok (s1, _) |- _ => clear E | E : _ = Ok st' |- _ => clear E end.
+      rename EG into E0. revert s1 w1 E0. induction IH as [|x xs Hx _ IHxs]; intros s1 w1 E0; [inv_ok; apply pres_refl|].
+      destruct (class_child x && negb (is_placeholder x)); [|eapply IHxs; exact E0].
+      cbn [fst snd] in E0. destruct (walk_member al d pref_doc warn s1 x) as [[sx wx]|] eqn:EX; cbn [bind fst snd] in E0; [|discriminate].
+      eapply pres_trans; [eapply Hx; exact EX|eapply IHxs; exact E0].
+  Qed.
+
+  Lemma fold_err_module defs e :
+    fold_left (fun acc x => do cur <- acc;
+                 if module_child x && negb (is_placeholder x)
+                 then do s' <- walk_member al d pref_doc warn (fst cur) x; Ok (fst s', wapp (snd cur) (snd s')) else Ok cur) defs (Err e) = Err e.
+  Proof. induction defs; cbn; auto. Qed.
+
+  (* a module: its own frame is pushed, the members leave it in place, it is popped into the module dictionary *)
+  Theorem walk_module_adds st m st' w :
+    walk_module al d pref_doc warn st m = Ok (st', w) ->
+    exists md, m_id md = dots_to_slashes (mf_fullname m) /\ vs_modules st' = dict_set (m_id md) md (vs_modules st) /\
+               Forall2 hdr_eq (vs_stack st) (vs_stack st') /\ vs_rmap st' = vs_rmap (enter_module st m).
+  Proof.
+    unfold walk_module. intro H. inv_ok. split_pairs.
+    match goal with E : fold_left _ _ _ = Ok (?b, _), E0' : leave_module ?b = Ok _ |- _ => rename b into s2; rename E0' into E0 end.
+    assert (G : forall defs s1 w1 s2 w2,
+      fold_left (fun acc x => do cur <- acc;
+                 if module_child x && negb (is_placeholder x)
+                 then do s' <- walk_member al d pref_doc warn (fst cur) x; Ok (fst s', wapp (snd cur) (snd s')) else Ok cur) defs (Ok (s1, w1)) = Ok (s2, w2) ->
+      pres s1 s2).
+    { induction defs as [|x r IH]; intros s1 w1 s2' w2' HF; cbn [fold_left] in HF; [inv_ok; apply pres_refl|].
+      cbn [bind fst snd] in HF. destruct (module_child x && negb (is_placeholder x)); [|eapply IH; exact HF].
+      destruct (walk_member al d pref_doc warn s1 x) as [[sx wx]|] eqn:EX; cbn [bind fst snd] in HF; [|rewrite fold_err_module in HF; discriminate].
+      eapply pres_trans; [eapply walk_member_pres; exact EX|eapply IH; exact HF]. }
+    apply G in E. destruct E as [HS [KM [KR [KF KN]]]].
+    unfold enter_module in HS. destruct (imports_of m) as [qis wis]. cbn [vs_stack] in HS.
+    inversion HS as [|a b ra rb Hab Hrest]; subst.
+    unfold leave_module in E0. rewrite <- H1 in E0. destruct b as [md| | | |]; try discriminate. inv_ok.
+    cbn [hdr_eq] in Hab. destruct Hab as [Hid _]. cbn [m_id] in Hid.
+    exists md. split; [congruence|]. cbn [vs_modules vs_stack vs_rmap]. split; [|split].
+    - f_equal. unfold enter_module in KM. destruct (imports_of m). exact KM.
+    - exact Hrest.
+    - exact KR.
+  Qed.
+End Stack.
+
+(* ======================================================================================================== *)
+(* C15 / C12 at the level of the whole run: the modules of the API object are exactly walked trees, and a tree is  *)
+(* walked only if its file passed the filter of the discovery loop                                              *)
+(* ======================================================================================================== *)
+Lemma dict_set_in {V} k (v : V) dct kv : In kv (dict_set k v dct) -> In kv dct \/ kv = (k, v) \/ (exists v0, In (fst kv, v0) dct /\ snd kv = v /\ str_eqb k (fst kv) = true).
+Proof.
+  induction dct as [|[k' v'] r IH]; cbn.
+  - intros [H|[]]; right; left; auto.
+  - destruct (str_eqb k k') eqn:E.
+    + intros [H|H]; [|left; right; exact H]. subst kv. right. right. exists v'. cbn. auto.
+    + intros [H|H]; [left; left; exact H|]. destruct (IH H) as [H1|[H1|[v0 [H1 [H2 H3]]]]]; [left; right; exact H1|right; left; exact H1|].
+      right. right. exists v0. auto.
+Qed.
+
+Lemma str_eqb_true_eq a b : str_eqb a b = true -> a = b.
+Proof.
+  revert b; induction a as [|x a IH]; intros [|y b] H; cbn in H; try discriminate; [reflexivity|].
+  apply andb_true_iff in H as [H1 H2]. apply Ascii.eqb_eq in H1. subst. f_equal. auto.
+Qed.
+
+Definition tree_ok (trees : list gentry) (kv : str * module_) : Prop :=
+  fst kv = m_id (snd kv) /\ exists m, In (GMod m) trees /\ m_id (snd kv) = dots_to_slashes (mf_fullname m).
+
+Lemma front_fold_modules al dcs p w trees : forall (done : list gentry) st lg st' lg',
+  Forall (tree_ok (done ++ trees)) (vs_modules st) ->
+  fold_left (fun acc g => do cur <- acc;
+              match g with
+              | GMod m => do s' <- walk_module al dcs p w (fst cur) m; Ok (fst s', wapp (snd cur) (snd s'))
+              | _ => Err OracleMiss
+              end) trees (Ok (st, lg)) = Ok (st', lg') ->
+  Forall (tree_ok (done ++ trees)) (vs_modules st').
+Proof.
+  induction trees as [|g r IH]; intros done st lg st' lg' Inv H; cbn [fold_left] in H.
+  - inversion H; subst. exact Inv.
+  - cbn [bind fst snd] in H. destruct g as [m|pth fn|k].
+    + destruct (walk_module al dcs p w st m) as [[s1 w1]|] eqn:EW; cbn [bind fst snd] in H.
+      * replace (done ++ GMod m :: r) with ((done ++ [GMod m]) ++ r) in * by (rewrite <- app_assoc; reflexivity).
+        eapply IH; [|exact H].
+        apply walk_module_adds in EW. destruct EW as [md [Hid [HM _]]]. rewrite HM.
+        apply Forall_forall. intros kv Hin. apply dict_set_in in Hin.
+        destruct Hin as [Hin|[Hin|[v0 [Hin [Hs Hk]]]]].
+        -- rewrite Forall_forall in Inv. exact (Inv kv Hin).
+        -- subst kv. split; [reflexivity|]. exists m. split; [|exact Hid]. apply in_or_app. left. apply in_or_app. right. left. reflexivity.
+        -- destruct kv as [k v]. cbn in *. subst v. apply str_eqb_true_eq in Hk. subst k. split; [reflexivity|].
+           exists m. split; [|exact Hid]. apply in_or_app. left. apply in_or_app. right. left. reflexivity.
+      * exfalso. clear -H. induction r as [|x r IHr]; cbn in H; [discriminate|auto].
+    + exfalso. clear -H. induction r as [|x r IHr]; cbn in H; [discriminate|auto].
+    + exfalso. clear -H. induction r as [|x r IHr]; cbn in H; [discriminate|auto].
+Qed.
+
+Lemma select_asts_spec graph walkable packages trees g :
+  select_asts graph walkable packages = Ok trees -> In g trees ->
+  In g graph /\ exists pth, gentry_path g = Ok pth /\
+    ((ends_with t_init_file pth = true /\ In (init_package_path pth) packages) \/
+     (ends_with t_init_file pth = false /\ In pth walkable)).
+Proof.
+  unfold select_asts. destruct (mapM gentry_path graph) as [paths|] eqn:EP; cbn [bind]; [|discriminate].
+  intro H. inversion H; subst; clear H. rewrite map_app, in_app_iff, !in_map_iff.
+  assert (C : forall x, In x (combine graph paths) -> In (fst x) graph /\ gentry_path (fst x) = Ok (snd x)).
+  { revert paths EP. induction graph as [|g0 gr IH]; intros paths EP [a b] Hin; cbn in *.
+    - inversion EP; subst. destruct Hin.
+    - destruct (gentry_path g0) as [p0|] eqn:E0; cbn [bind] in EP; [|discriminate].
+      destruct (mapM gentry_path gr) as [ps|] eqn:E1; cbn [bind] in EP; [|discriminate]. inversion EP; subst.
+      cbn in Hin. destruct Hin as [Hin|Hin]; [inversion Hin; subst; cbn; auto|].
+      destruct (IH ps eq_refl (a, b) Hin) as [H1 H2]. cbn in *. auto. }
+  intros [[[a b] [Hf Hin]]|[[a b] [Hf Hin]]]; apply filter_In in Hin as [Hin Hc]; destruct (C _ Hin) as [C1 C2]; cbn in *; subst a;
+    (split; [exact C1|]); exists b; (split; [exact C2|]); apply andb_true_iff in Hc as [Hc1 Hc2].
+  - left. split; [exact Hc1|]. apply Proofs.DiscoverProofs.mem_str_In. exact Hc2.
+  - right. apply negb_true_iff in Hc1. split; [exact Hc1|]. apply Proofs.DiscoverProofs.mem_str_In. exact Hc2.
+Qed.
+
+Theorem front_modules_are_filtered v o md :
+  front v = Ok o -> In md (api_modules (o_api o)) ->
+  exists m, In (GMod m) (v_graph v) /\ m_id md = dots_to_slashes (mf_fullname m) /\
+    let '(walkable, packages) := discover (v_test_run v) (v_glob v) in
+    ((ends_with t_init_file (mf_path m) = true /\ In (init_package_path (mf_path m)) packages) \/
+     (ends_with t_init_file (mf_path m) = false /\ In (mf_path m) walkable)).
+Proof.
+  unfold front, get_api_files. destruct (discover (v_test_run v) (v_glob v)) as [wk pk] eqn:ED.
+  destruct wk as [|wk0 wk']; [discriminate|].
+  destruct (select_asts (v_graph v) (wk0 :: wk') pk) as [trees|] eqn:ES; cbn [bind]; [|discriminate].
+  destruct (get_aliases (v_package v) (v_aliases v) []) as [al|]; cbn [bind]; [|discriminate].
+  match goal with |- context [fold_left ?F trees ?I] => destruct (fold_left F trees I) as [[st lg]|] eqn:EF end; cbn [bind]; [|discriminate].
+  intro H. inversion H; subst; clear H. cbn [o_api api_modules fst]. intro Hin.
+  apply in_map_iff in Hin as [[k md'] [Hmd Hin]]. cbn in Hmd. subst md'.
+  pose proof (front_fold_modules al (v_docs v) (v_pref_doc v) (v_warn v) trees [] init_vstate w0 st lg (Forall_nil _) EF) as Inv.
+  rewrite Forall_forall in Inv. destruct (Inv _ Hin) as [_ [m [Hm Hid]]]. cbn in Hm, Hid.
+  destruct (select_asts_spec _ _ _ _ _ ES Hm) as [HG [pth [HP HC]]]. cbn in HP. inversion HP; subst pth.
+  exists m. split; [exact HG|]. split; [exact Hid|]. exact HC.
+Qed.
+
+(* without the test-run flag no module of the API object comes from a file in a directory named test, tests or docs *)
+Theorem no_module_from_excluded_directories v o md :
+  front v = Ok o -> v_test_run v = false -> In md (api_modules (o_api o)) ->
+  exists m, In (GMod m) (v_graph v) /\ m_id md = dots_to_slashes (mf_fullname m) /\
+    ((ends_with t_init_file (mf_path m) = false /\ In (mf_path m) (v_glob v) /\ in_excluded_dir (mf_path m) = false) \/
+     (ends_with t_init_file (mf_path m) = true /\
+      exists f, In f (v_glob v) /\ in_excluded_dir f = false /\ is_init_file f = true /\ parent_dir f = init_package_path (mf_path m))).
+Proof.
+  intros HF TR Hin. destruct (front_modules_are_filtered v o md HF Hin) as [m [HG [Hid HC]]].
+  exists m. split; [exact HG|]. split; [exact Hid|].
+  destruct (discover (v_test_run v) (v_glob v)) as [wk pk] eqn:ED. destruct HC as [[E P]|[E P]].
+  - right. split; [exact E|]. assert (P' : In (init_package_path (mf_path m)) (snd (discover (v_test_run v) (v_glob v)))) by (rewrite ED; exact P).
+    apply package_iff in P'. destruct P' as [f [F1 [F2 [F3 F4]]]]. exists f. rewrite TR in F2.
+    destruct F2 as [F2|F2]; [discriminate|]. auto.
+  - left. split; [exact E|]. assert (P' : In (mf_path m) (fst (discover (v_test_run v) (v_glob v)))) by (rewrite ED; exact P).
+    apply walkable_iff in P'. destruct P' as [F1 [F2 F3]]. rewrite TR in F2. destruct F2 as [F2|F2]; [discriminate|]. auto.
 Qed.
